@@ -12,6 +12,7 @@ use crate::api::{self, Ev, Outcome, Val};
 use crate::choice::Choices;
 use crate::gen::{self, Profile};
 use crate::grammar;
+use crate::vocab;
 use crate::run::{Case, Failure, Prop, ShardCtx, Sub, SubKind, Tier};
 use std::collections::HashMap;
 use std::sync::{Mutex, OnceLock};
@@ -64,6 +65,27 @@ fn dictionary(c: &mut dyn Choices, n: usize) -> Vec<(Ev, String)> {
             v.push((ev, s));
         }
     }
+    // argument sweeps: one function evaluated at several nearby arguments (warm-started iterations, last-argument
+    // memos and similar state show up only when related calls follow each other)
+    let sweeps = 1 + c.below(3);
+    for _ in 0..sweeps {
+        let ev = [Ev::F64, Ev::Num, Ev::Dec, Ev::Cpx, Ev::I64][c.below(5) as usize];
+        let fs: Vec<_> = vocab::funcs(ev).into_iter().filter(|f| f.arity == vocab::Arity::One).collect();
+        // Lambert W, factorial and the iterative functions get extra weight
+        let name = match c.below(4) {
+            0 if vocab::func(ev, "w").is_some() => "w",
+            1 if vocab::func(ev, "lambert_w").is_some() => "lambert_w",
+            _ => fs[c.below(fs.len() as u32) as usize].name,
+        };
+        let base = 1 + c.below(400) as i64;
+        for k in 0..(3 + c.below(4)) as i64 {
+            let arg = if ev == Ev::I64 { format!("{}", base + k) } else { format!("{}.{}", (base + k * 7) / 10, (base + k * 7) % 10) };
+            v.push((ev, format!("{}({})", name, arg)));
+            if vocab::has_fact(ev) && k == 0 {
+                v.push((ev, format!("{}!", arg)));
+            }
+        }
+    }
     if v.is_empty() {
         v.push((Ev::F64, "1+@".into()));
     }
@@ -87,7 +109,7 @@ impl Prop for C16Prop {
         "C16"
     }
     fn rule(&self) -> String {
-        "Cases are call histories: 200..1000 (quick) / up to 5000 (thorough) calls (evaluator, expression, placeholder) drawn from a per-history dictionary of 12..40 expressions (well-formed with and without @, error-producing, malformed) so that keys repeat, each reused with changing placeholders and interleaved across all five evaluators; the whole history is one generated value (a choice sequence) and shrinks as one. Oracle (no-state model): every occurrence of a key must return, bit for bit, the outcome of its isolated first-time evaluation, computed by a fresh child process making exactly that one call. The history is run sequentially in-process, then replayed concurrently by 16 threads each starting at a different rotation, then every thread hammers one expression with different placeholders. non-trivial = an occurrence whose expression occurred earlier in the history with a different placeholder or evaluator, or that directly follows an Err-producing call; distinct by (key, predecessor key). evaluations counts library calls (sequential + concurrent + child processes).".into()
+        "Cases are call histories: 200..1000 (quick) / up to 5000 (thorough) calls (evaluator, expression, placeholder) drawn from a per-history dictionary of 12..60 expressions (well-formed with and without @, error-producing, malformed, plus 1..3 argument sweeps: one function - Lambert W weighted - at 3..6 nearby arguments) so that keys repeat, each reused with changing placeholders and interleaved across all five evaluators; the whole history is one generated value (a choice sequence) and shrinks as one. Oracle (no-state model): every occurrence of a key must return, bit for bit, the outcome of its isolated first-time evaluation, computed by a fresh child process making exactly that one call. The history is run sequentially in-process, then replayed concurrently by 16 threads each starting at a different rotation, then every thread hammers one expression with different placeholders. non-trivial = an occurrence whose expression occurred earlier in the history with a different placeholder or evaluator, or that directly follows an Err-producing call; distinct by (key, predecessor key). evaluations counts library calls (sequential + concurrent + child processes).".into()
     }
     fn assumptions(&self) -> Vec<String> {
         vec!["thread interleavings are whatever the OS produces under 16-way contention (not enumerated): the crate uses no synchronisation primitive a schedule explorer could intercept".into()]
